@@ -104,7 +104,32 @@ def outcome(s, keep=False):
             agree = False
         # "msg": is it the uniqueness check of ObserverGraph.__init__ (the listed finding) or another refusal?
         return {"o": "cerr", "agree": agree, "msg": "children" if msg == "Not all children are unique." else "other"}, None
-    return {"o": "rej", "agree": True}, None
+    # third entry point: the HasTraits API layer (HasTraits.observe -> _compile_expression).  A text parse rejects must
+    # be refused there with ValueError too, alone and inside a list.
+    return {"o": "rej", "agree": api_rejects(s, lists=keep)}, None
+
+
+_API_PROBE = []
+
+
+def api_rejects(s, lists=True):
+    if not _API_PROBE:
+        _API_PROBE.append(Probe())
+    p = _API_PROBE[0]
+    forms = [s] + ([["a", s], [s, expression.trait("a")]] if lists else [])
+    for f in forms:
+        try:
+            p.observe(_handler, f)
+        except ValueError:
+            continue
+        except BaseException:   # noqa: B902
+            return False
+        try:
+            p.observe(_handler, f, remove=True)
+        except BaseException:   # noqa: B902
+            pass
+        return False
+    return True
 
 
 class Probe(HasTraits):
@@ -122,8 +147,8 @@ def _handler(event):
 def run_single(s):
     """Outcome of the text plus `stable`: the answer is the same when asked again (lru caches warm), after the
     compiled graphs were used to hook and unhook observers on an object, and after the caches were dropped."""
-    first = outcome(s)[0]
-    again = outcome(s)[0]
+    first = outcome(s, keep=True)[0]
+    again = outcome(s, keep=True)[0]
     try:
         p = Probe(a=Probe(b=Probe(), name=[Probe()]), b=Probe(), name=[Probe(), Probe()])
         p.observe(_handler, s)
@@ -140,11 +165,11 @@ def run_single(s):
         p.observe(_handler, [expression.trait("b"), s, "c"], remove=True)
     except BaseException:   # noqa: B902  (a missing trait etc.: the graphs were still handed out)
         pass
-    used = outcome(s)[0]
+    used = outcome(s, keep=True)[0]
     parsing.parse.cache_clear()
     parsing.compile_str.cache_clear()
     expression.compile_expr.cache_clear()
-    fresh = outcome(s)[0]
+    fresh = outcome(s, keep=True)[0]
     first["stable"] = bool(again == first and used == first and fresh == first)
     return first
 
